@@ -1,0 +1,41 @@
+//go:build verif
+
+// Contracts for the verif build tag: comment-only, read by /verif/engine (govc).
+package ecs
+
+//@ # ---- C19: what may be forwarded upstream: a fresh option whose source length never exceeds the configured
+//@ # ceiling (nor the client's own), scope 0, address truncated to that length; nothing for unusable input
+//@ func ipToAddr
+//@   modifies nothing
+//@   ensures result1 ==> addrValid(result0)
+//@
+//@ func (*Policy).Clamp
+//@   ensures p == nil || in == nil ==> result == nil
+//@   ensures result != nil ==> result != in && result.SourceScope == 0 && result.Code == dns.EDNS0SUBNET
+//@   ensures result != nil ==> result.SourceNetmask <= in.SourceNetmask && (in.Family == 1 || in.Family == 2) && result.Family == in.Family
+//@   ensures result != nil && in.Family == 1 ==> result.SourceNetmask <= p.ForwardV4Max
+//@   ensures result != nil && in.Family == 2 ==> result.SourceNetmask <= p.ForwardV6Max
+//@   assert at call (net/netip.Addr).Prefix#1: arg1 == int(min(in.SourceNetmask, ite(in.Family == 1, p.ForwardV4Max, p.ForwardV6Max)))
+//@
+//@ # who may have ECS forwarded: nobody without an enabled policy; with client networks, only clients inside one
+//@ func (*Policy).Allows
+//@   modifies nothing
+//@   ensures result ==> p != nil && p.Enabled && addrValid(client) && (len(p.ClientNetworks) == 0 || exists i int :: {p.ClientNetworks[i]} 0 <= i && i < len(p.ClientNetworks) && prefixContains(p.ClientNetworks[i], client))
+//@   ensures p != nil && p.Enabled && addrValid(client) && (len(p.ClientNetworks) == 0 || exists i int :: {p.ClientNetworks[i]} 0 <= i && i < len(p.ClientNetworks) && prefixContains(p.ClientNetworks[i], client)) ==> result
+//@   loop 1 invariant forall j int :: {p.ClientNetworks[j]} 0 <= j && j < rangeidx ==> !prefixContains(p.ClientNetworks[j], client)
+//@
+//@ # configuration fails closed: any out-of-range ceiling/floor or unparsable network yields (nil, error)
+//@ func Build
+//@   ensures !enabled ==> result0 == nil && result1 == nil
+//@   ensures result0 != nil ==> result1 == nil && enabled && result0.Enabled && 1 <= result0.ForwardV4Max && result0.ForwardV4Max <= 32 && 1 <= result0.ForwardV6Max && result0.ForwardV6Max <= 128
+//@   ensures result0 != nil ==> 1 <= result0.MinScopeV4 && result0.MinScopeV4 <= 32 && 1 <= result0.MinScopeV6 && result0.MinScopeV6 <= 128
+//@   ensures result0 != nil ==> len(result0.ClientNetworks) == len(clientNetworks) && forall i int :: {clientNetworks[i]} 0 <= i && i < len(clientNetworks) ==> parsePrefixOK(clientNetworks[i])
+//@   ensures enabled && result0 == nil ==> result1 != nil
+//@   loop 1 invariant len(nets) == rangeidx && cap(nets) >= len(clientNetworks) && forall j int :: {clientNetworks[j]} 0 <= j && j < rangeidx ==> parsePrefixOK(clientNetworks[j])
+//@
+//@ # scope used for cache keys: never longer than what the authority returned, nor than what we forwarded, nor than the configured floor
+//@ func (*Policy).ClampScope
+//@   modifies nothing
+//@   ensures p != nil && prefixValid(scope) && result != scope ==> prefixBits(result) <= prefixBits(scope) && (prefixValid(source) ==> prefixBits(result) <= prefixBits(source))
+//@   ensures p != nil && prefixValid(scope) && result != scope && addrIs4(prefixAddr(scope)) ==> prefixBits(result) <= int(p.MinScopeV4)
+//@   ensures p != nil && prefixValid(scope) && result != scope && addrIs6(prefixAddr(scope)) ==> prefixBits(result) <= int(p.MinScopeV6)
